@@ -160,15 +160,17 @@ func (x *runner) inject(class string, raw []byte, guaranteed, mustPass bool) str
 	x.o.Count("verdict:" + strings.Fields(obs)[0])
 	x.o.Count(fmt.Sprintf("len:%s", lenBucket(len(raw))))
 	dropped := strings.HasPrefix(obs, "drop-")
-	if dropped {
+	// the datagram must have no effect if the real code says it dropped it OR if the check
+	// computed independently says it has to be dropped
+	if dropped || strings.HasPrefix(verdict, "drop-") {
 		if !bytes.Equal(before, after) {
-			x.viol("gate-state-changed", fmt.Sprintf("%s/%s: a datagram rejected by the gate (%s) changed the session state:\n%s", x.cfg.name, class, obs, diffLines(before, after)), op)
+			x.viol("gate-state-changed", fmt.Sprintf("%s/%s: a datagram that fails the gate (real code: %s, independent check: %s) changed the session state:\n%s", x.cfg.name, class, obs, verdict, diffLines(before, after)), op)
 		}
 		if x.oobs != oob0 {
-			x.viol("gate-state-changed", fmt.Sprintf("%s/%s: OOB callback invoked for a rejected datagram (%s)", x.cfg.name, class, obs), op)
+			x.viol("gate-state-changed", fmt.Sprintf("%s/%s: OOB callback invoked for a datagram that fails the gate (real code: %s, independent check: %s)", x.cfg.name, class, obs, verdict), op)
 		}
-		if d.InErrs != 0 || d.OOBPackets != 0 || d.InBytes != 0 {
-			x.viol("gate-state-changed", fmt.Sprintf("%s/%s: counters other than the error counter moved for a rejected datagram: %+v", x.cfg.name, class, d), op)
+		if d.InErrs != 0 || d.OOBPackets != 0 || d.InBytes != 0 || d.InPkts != 0 {
+			x.viol("gate-state-changed", fmt.Sprintf("%s/%s: a datagram that fails the gate (independent check: %s) reached kcpInput or moved other counters: %+v", x.cfg.name, class, verdict, d), op)
 		}
 	}
 	if pmsg == "" && obs != verdict {
